@@ -519,12 +519,9 @@ theorem withSub_noPanic {α : Type} (f : α → SfntV.Otl.Gsub.Sub) {x : Outcome
   | err e => exact True.intro
   | panic s => exact h
 
-/-- `readGsubSubtable` on the keys of this group never panics -/
-theorem readSubtable_noPanic (tp : Nat) (b : Bytes) (pos : Nat) :
-    (readSubtable tp b pos).noPanic := by
-  unfold readSubtable
-  refine bind_noPanic (readU16_noPanic _ _ _) (fun format _ => ?_)
-  dsimp only
+theorem dispatchKey_noPanic (key : Nat) (b : Bytes) (pos : Nat) :
+    (dispatchKey key b pos).noPanic := by
+  unfold dispatchKey
   split
   · exact withSub_noPanic _ (read11_noPanic b pos)
   split
@@ -538,6 +535,22 @@ theorem readSubtable_noPanic (tp : Nat) (b : Bytes) (pos : Nat) :
   split
   · exact withSub_noPanic _ (read81_noPanic b pos)
   split <;> exact True.intro
+
+/-- `readGsubSubtable` (as it is now) on the keys of this group never panics -/
+theorem readSubtable_noPanic (tp : Nat) (b : Bytes) (pos : Nat) :
+    (readSubtable tp b pos).noPanic := by
+  unfold readSubtable
+  refine bind_noPanic (readU16_noPanic _ _ _) (fun format _ => ?_)
+  dsimp only
+  split
+  · exact True.intro
+  · exact dispatchKey_noPanic _ b pos
+
+/-- the dispatcher before the repair did not panic either (it decoded through colliding keys) -/
+theorem readSubtableOld_noPanic (tp : Nat) (b : Bytes) (pos : Nat) :
+    (readSubtableOld tp b pos).noPanic := by
+  unfold readSubtableOld
+  exact bind_noPanic (readU16_noPanic _ _ _) (fun format _ => dispatchKey_noPanic _ b pos)
 
 /-! ## cost -/
 
@@ -1542,11 +1555,23 @@ example : view81 (read81 [0,1, 0,16, 0,1, 0,16, 0,1, 0,16, 0,1, 0,40, 0,1, 0,1, 
     = some ([[(5,0)], [(5,0)], [(5,0)]], [40], 18, 12) := by decide +kernel
 /-- beyond the end: an I/O error -/
 example : errOf (read81 [0,1] 7) = some "io" := by decide +kernel
-/-- the dispatcher key is uint16 arithmetic: lookup type 1 with format word 11 is read by
-`readGsub2_1` (key 21), lookup type 4 with format 11 belongs to `readSeqContext1` (key 51) -/
-example : (readSubtable 1 [0,11, 0,6, 0,0, 0,1, 0,0] 0).isOk = true := by decide +kernel
-example : errOf (readSubtable 4 [0,11] 0) = some "foreign" := by decide +kernel
+/-- the dispatcher key is uint16 arithmetic.  BEFORE the repair lookup type 1 with format word 11
+was read by `readGsub2_1` (key 21) and lookup type 4 with format 11 belonged to `readSeqContext1`
+(key 51), lookup type 6560 with format 7 to the extension reader (key 65607 mod 65536 = 71) -/
+theorem readSubtableOld_key_collision :
+    (readSubtableOld 1 [0,11, 0,6, 0,0, 0,1, 0,0] 0).isOk = true ∧
+    errOf (readSubtableOld 4 [0,11] 0) = some "foreign" ∧
+    errOf (readSubtableOld 6560 [0,7] 0) = some "foreign" := by decide +kernel
+/-- the code as it is now rejects all of them -/
+example : errOf (readSubtable 1 [0,11, 0,6, 0,0, 0,1, 0,0] 0) = some "invalid" := by decide +kernel
+example : errOf (readSubtable 4 [0,11] 0) = some "invalid" := by decide +kernel
+example : errOf (readSubtable 6560 [0,7] 0) = some "invalid" := by decide +kernel
+example : errOf (readSubtable 32769 [0,1, 0,6, 0,1, 0,1, 0,1, 0,5] 0) = some "invalid" := by
+  decide +kernel
 example : errOf (readSubtable 2 [0,2] 0) = some "invalid" := by decide +kernel
+/-- valid keys: type 1 format 1 decodes; type 5 format 1 belongs to another group's reader -/
+example : (readSubtable 1 [0,1, 0,6, 0,1, 0,1, 0,1, 0,5] 0).isOk = true := by decide +kernel
+example : errOf (readSubtable 5 [0,1] 0) = some "foreign" := by decide +kernel
 
 /-! ### 8.1 -/
 
@@ -1758,4 +1783,68 @@ theorem read81_erase (b : Bytes) (pos : Nat) :
     unfold SfntV.Otl.Gsub.read81
     rcases short2 hlen with h | ⟨a, h⟩ <;> rw [h] <;> rfl
 
+/-! ## bridge of the dispatcher -/
+
+theorem erase_withSub {α : Type} (f : α → SfntV.Otl.Gsub.Sub) (x : Outcome (α × Cost)) :
+    erase (withSub f x) = mapOk f (erase x) := by
+  cases x with
+  | ok r => obtain ⟨a, c⟩ := r; rfl
+  | err e => rfl
+  | panic s => rfl
+
+/-- BRIDGE of the dispatcher `readGsubSubtable` (as repaired: lookup types and formats above 9
+are rejected): for every lookup type that is not one of the other groups' (5, 6, 7 — contextual,
+chained contextual, extension, where this model answers `err "foreign"` for the valid formats and
+the C08 model `invalid`), every byte string and every position, and WITHOUT any condition on the
+format word, the checked model without its cost is the C08 model `Otl.Gsub.readSubtable`.
+Before the repair this was false (`readSubtableOld_key_collision`: type 1, format word 11). -/
+theorem readSubtable_erase (tp : Nat) (b : Bytes) (pos : Nat) (h5 : tp ≠ 5) (h6 : tp ≠ 6)
+    (h7 : tp ≠ 7) :
+    erase (readSubtable tp b pos) = SfntV.Otl.Gsub.readSubtable tp (b.drop pos) := by
+  unfold readSubtable SfntV.Otl.Gsub.readSubtable
+  rcases word_cases "gsub.go:36#ReadUint16" b pos with ⟨f, hf, hws⟩ | ⟨hf, hws⟩
+  · rw [hf, ok_bind, hws]
+    dsimp only
+    simp only [Bool.and_eq_true, Bool.or_eq_true, beq_iff_eq]
+    by_cases hg : tp > 9 ∨ f > 9
+    · rw [if_pos hg, if_neg (by omega : ¬ (tp = 1 ∧ f = 1)), if_neg (by omega : ¬ (tp = 1 ∧ f = 2)),
+        if_neg (by omega : ¬ ((tp = 2 ∨ tp = 3) ∧ f = 1)), if_neg (by omega : ¬ (tp = 4 ∧ f = 1)),
+        if_neg (by omega : ¬ (tp = 8 ∧ f = 1))]
+      rfl
+    · rw [if_neg hg, Nat.mod_eq_of_lt (by omega : 10 * tp + f < 65536)]
+      unfold dispatchKey
+      by_cases h11 : tp = 1 ∧ f = 1
+      · rw [if_pos (by omega : 10 * tp + f = 11), if_pos h11, erase_withSub, read11_erase]
+        cases SfntV.Otl.Gsub.read11 (b.drop pos) <;> rfl
+      rw [if_neg (by omega : ¬ 10 * tp + f = 11), if_neg h11]
+      by_cases h12 : tp = 1 ∧ f = 2
+      · rw [if_pos (by omega : 10 * tp + f = 12), if_pos h12, erase_withSub, read12_erase]
+        cases SfntV.Otl.Gsub.read12 (b.drop pos) <;> rfl
+      rw [if_neg (by omega : ¬ 10 * tp + f = 12), if_neg h12]
+      by_cases h21 : tp = 2 ∧ f = 1
+      · rw [if_pos (by omega : 10 * tp + f = 21), if_pos (by omega : (tp = 2 ∨ tp = 3) ∧ f = 1),
+          erase_withSub, read21_erase, h21.1]
+        cases SfntV.Otl.Gsub.readSeq (b.drop pos) <;> rfl
+      rw [if_neg (by omega : ¬ 10 * tp + f = 21)]
+      by_cases h31 : tp = 3 ∧ f = 1
+      · rw [if_pos (by omega : 10 * tp + f = 31), if_pos (by omega : (tp = 2 ∨ tp = 3) ∧ f = 1),
+          erase_withSub, read31_erase, h31.1]
+        cases SfntV.Otl.Gsub.readSeq (b.drop pos) <;> rfl
+      rw [if_neg (by omega : ¬ 10 * tp + f = 31), if_neg (by omega : ¬ ((tp = 2 ∨ tp = 3) ∧ f = 1))]
+      by_cases h41 : tp = 4 ∧ f = 1
+      · rw [if_pos (by omega : 10 * tp + f = 41), if_pos h41, erase_withSub, read41_erase]
+        cases SfntV.Otl.Gsub.read41 (b.drop pos) <;> rfl
+      rw [if_neg (by omega : ¬ 10 * tp + f = 41), if_neg h41]
+      by_cases h81 : tp = 8 ∧ f = 1
+      · rw [if_pos (by omega : 10 * tp + f = 81), if_pos h81, erase_withSub, read81_erase]
+        cases SfntV.Otl.Gsub.read81 (b.drop pos) <;> rfl
+      rw [if_neg (by omega : ¬ 10 * tp + f = 81), if_neg h81]
+      have hfk : foreignKeys.contains (10 * tp + f) = false := by
+        simp only [foreignKeys, List.contains_cons, List.contains_nil, Bool.or_false,
+          Bool.or_eq_false_iff, beq_eq_false_iff_ne, ne_eq]
+        omega
+      rw [hfk]
+      rfl
+  · rw [hf, hws]
+    rfl
 end SfntV.Total.GsubSub
